@@ -15,6 +15,9 @@ package csv
 //@   assigns nothing
 //@   nopanic
 //
+// where a quoted field that opened before i ends: just after the first quote that is not doubled, or at the end of input
+//@ rec qEnd(s seq[rune], i int, q rune) int decreases len(s) - i =
+//@     (i < 0 || i >= len(s)) ? len(s) : (s[i] == q ? ((i + 1 < len(s) && s[i+1] == q) ? qEnd(s, i + 2, q) : i + 1) : qEnd(s, i + 1, q))
 //@ func (c *CsvQuoteState) NextToken
 //@   requires c != nil && isScanner(scanner) && sc(scanner).position + 1 < len(sc(scanner).content)
 //@   requires forall i int :: 0 <= i && i < len(sc(scanner).content) ==> scalar(sc(scanner).content[i])
@@ -24,8 +27,12 @@ package csv
 //@   assigns sc(scanner).position, sc(scanner).line, sc(scanner).column
 //@   nopanic
 //@   ensures[C09,C14] result.typ == tokenizers.Quoted
+// "separators and line breaks inside quoted fields are data, a doubled quote [is] one quote": the field runs to the first
+// quote of its own kind that is not doubled
+//@   ensures[C09] cur(scanner) == qEnd(seq(sc(scanner).content), old(cur(scanner)) + 1, sc(scanner).content[old(cur(scanner))])
 //@   loop 0
 //@     invariant isScanner(scanner) && sc(scanner).content == old(sc(scanner).content)
+//@     invariant qEnd(seq(sc(scanner).content), old(cur(scanner)) + 1, firstSymbol) == qEnd(seq(sc(scanner).content), sc(scanner).position, firstSymbol)
 //@     invariant old(sc(scanner).position) + 1 <= sc(scanner).position && sc(scanner).position <= len(sc(scanner).content)
 //@     invariant nextSymbol == chr(seq(sc(scanner).content), sc(scanner).position)
 //@     invariant old(sc(scanner).position) + 2 <= sc(scanner).position + (nextSymbol == -1 ? 1 : 0)
@@ -44,3 +51,4 @@ package csv
 //@   assigns sc(scanner).position, sc(scanner).line, sc(scanner).column
 //@   nopanic
 //@   ensures[C09] !iseol(sc(scanner).content[old(cur(scanner))]) ==> result.typ == tokenizers.Symbol && cur(scanner) == old(cur(scanner)) + 1
+
